@@ -12,7 +12,9 @@ Descriptions (plain hashable tuples):
              name      the name callers use for it (the convention alias)
              kind      'pos' | 'varargs' | 'kwonly' | 'varkw' | 'hidden'
              type      a class name of the lattice, 'Any', 'Lazy' (Lambda), 'Rule' (MappingRule:
-                       lazy, accepts only `name => expr`), or for hidden parameters 'Engine' | 'Context'
+                       lazy, accepts only `name => expr`), or for hidden parameters 'Engine' | 'Context' |
+                       'Super/<None|True|False>/<arg|noarg>': the payload calls its base implementation
+                       (see resolve) with its first argument / without arguments and returns that result
   overload   (tag, parameters, kind, no_kwargs)     kind 'function' | 'method' | 'ext'
   layer      (exclusive, overloads)                 layers are listed nearest first
   item       ('var', v)          eager expression whose value is the lattice value v
@@ -199,7 +201,7 @@ def binding(lat, params, mapping):
     for p in params:
         mine = [(k, a) for k, q, a in mapping if q == p and a != ABSORBED]
         if p[1] == 'hidden':
-            v = p[2].lower()
+            v = p[2].split('/')[0].lower()
         elif p[1] == 'varargs':
             v = tuple(_label(lat, p, a) for k, a in mine)
         elif p[1] == 'varkw':
@@ -229,6 +231,38 @@ def winner(lat, ok, relaxed=()):
 
 
 def resolve(lat, layers, call, relaxed=()):
+    """Resolution of the call, followed - when the overload that runs takes a
+    Super hidden parameter - by the resolution of its base call.  yaqltypes.Super
+    (docstring in extending_yaql.rst: "injects callable to an overload of itself
+    from the parent context"): the base call is resolved from the parent of the
+    layer that holds the running overload; method=None keeps the receiver (and
+    hence the call kind) of the current call, True takes the first argument as
+    the new receiver, False forces a function call.  Arguments of the base call
+    are values."""
+    outcome, evaluated, bound = resolve_once(lat, layers, call, relaxed)
+    if outcome[0] != 'run':
+        return outcome, evaluated, bound
+    for depth, (exclusive, overloads) in enumerate(layers):
+        for o in overloads:
+            sup = [p[2] for p in o[1] if p[1] == 'hidden' and p[2].startswith('Super/')]
+            if o[0] == outcome[1] and sup:
+                variant, mode = sup[0].split('/')[1:]
+                first = call[0] if call[0] is not None else call[1][0]
+                value = first if first[0] == 'const' else ('val', first[1])
+                args = (value,) if mode == 'arg' else ()
+                recv = call[0]
+                if variant == 'True':
+                    recv, args = args[0], args[1:]
+                elif variant == 'False':
+                    recv = None
+                inner, _, inner_bound = resolve(lat, layers[depth + 1:], (recv, args, ()), relaxed)
+                if inner[0] != 'run':
+                    return inner, evaluated, None
+                return ('run', o[0] + '>' + inner[1]), evaluated, inner_bound
+    return outcome, evaluated, bound
+
+
+def resolve_once(lat, layers, call, relaxed=()):
     recv, args, kwargs = call
     flavour = 'function' if recv is None else 'method'
     want = ('function', 'ext') if recv is None else ('method', 'ext')      # R1: kind by call syntax
